@@ -120,3 +120,6 @@ Qed.
 
 Definition sumbool_of_bool_cell (k k' : cell) : {k = k'} + {k <> k'}.
 Proof. destruct (cell_eqb_spec k k'); [left | right]; assumption. Defined.
+
+Lemma obj_of_Some' v q : obj_of v = Some q -> v = VObj q.
+Proof. destruct v; simpl; intros H; try discriminate; congruence. Qed.
